@@ -37,11 +37,23 @@ def run(tier):
                 "packing functions on symbolic data; the energy-level lift is extracted as a term.",
                 trusted_base=["python ast", "hv.kpe", "inverse partners: C18.c (M/M_inv, C/C_inv), C18.d (synodic<->local), C08.c (forward o inverse = id)"])
     _a_chains(chk)
+    _a_series(chk)
     _a_configure(chk)
     _b_tables(chk)
     _c_lift(chk)
     _d_restriction(chk)
     return chk
+
+
+def _a_series(chk):
+    """The series the chains request from the pipeline are the ones that realise H_cm = H_physical o Phi and invert each other.
+
+    Re-files the C08.b/c obligations for the partial normal form (generic Hamiltonian, degree 4, the keyword arguments
+    HamiltonianPipeline.get_lie_expansions itself passes) under C09.a: with the opposite generator sign, a restricted
+    series or a wrong application order the energy relation / the round trip fail at degree 3 or 4."""
+    from . import c08
+    from .common import Relabel
+    c08._one_frequency(Relabel(chk, {"C08.a": "C09.a-series", "C08.b": "C09.a-series", "C08.c": "C09.a-series", "C08.d": "C09.a-series"}), 4, c08.FREQS[0], 0, kinds=("partial",))
 
 
 def _service():
